@@ -17,6 +17,9 @@ import RvModel.Hand.Gp
     gp.ln_m_at <kind> GP L<p> θ             ↦  set_parameters(θ)?.ln_m()                                | E:… | PANIC
     gp.ln_m_fd <kind> GP L<p> θ <h>         ↦  L<p> central differences of ln_m_at in θᵢ (step h)       | E:… | PANIC
     gp.set_parameters <kind> GP L<p> θ      ↦  L<q> parameters() of the new process                     | E:… | PANIC
+    gp.state <kind> GP <Xq>                 ↦  STATE = L<p> parameters()  ln_m()  L<n> alpha (private, via serde)  L<nq> mean  L<nq²> cov  L<nq> variance
+    gp.set_vs_fresh <kind> GP L<p> θ <Xq>   ↦  STATE of set_parameters(θ)  then  STATE of train(kernel.reparameterize(θ), X, y, noise)
+                                               | <error of set_parameters> then STATE of the original process
     gp.predict_mean <kind> GP <Xq>          ↦  L<nq> sample_function(Xq).mean()                         | PANIC
     gp.predict_cov <kind> GP <Xq>           ↦  L<nq·nq> …cov() row-major                                | PANIC
     gp.predict_var <kind> GP <Xq>           ↦  L<nq> …variance()                                        | PANIC
@@ -89,7 +92,28 @@ def lnMAt (gp : Gp Float) (th : List Float) : Except GpErr Float := do
 
 def bitsEq (a b : Float) : Bool := a.toBits == b.toBits
 
+def stateBlock (gp : Gp Float) (Xq : List (List Float)) : String :=
+  match sampleFunction gp Xq with
+  | .ok p => wrL wrF (parameters gp) ++ " " ++ wrF (lnM gp) ++ " " ++ wrL wrF gp.alpha ++ " " ++ wrL wrF p.mean ++ " "
+      ++ wrMat p.cov ++ " " ++ wrL wrF p.variance
+  | .error e => wrGpErr e
+
 def tableC17 : List (String × Rd String) := [
+  ("gp.state", withGp fun gp => do
+    let Xq ← rdPts
+    pure (stateBlock gp Xq)),
+  ("gp.set_vs_fresh", withGp fun gp => do
+    let th ← rdL rdF
+    let Xq ← rdPts
+    match setParameters gp th with
+    | .error e => pure (wrGpErr e ++ " " ++ stateBlock gp Xq)
+    | .ok ga =>
+      match gp.kernel.reparameterize th with
+      | .error e => pure (wrKErr e)
+      | .ok kb =>
+        match train kb gp.xTrain gp.yTrain gp.noise with
+        | .error e => pure (wrGpErr e)
+        | .ok gb => pure (stateBlock ga Xq ++ " " ++ stateBlock gb Xq)),
   ("gp.train", withGp fun gp =>
     pure (wrMat (toFull gp.chol) ++ " " ++ wrL wrF gp.alpha ++ " " ++ wrMat gp.kInv)),
   ("gp.ln_m", withGp fun gp => pure (wrF (lnM gp))),
